@@ -746,7 +746,8 @@ async def start_x_server(c):
         raise RuntimeError('bring-up: no free port for the stand-in X server')
     c.x_tmp = tempfile.mkdtemp(prefix='c10-x11-')
     import atexit
-    atexit.register(shutil.rmtree, c.x_tmp, True)       # also when the session ends by an exception
+    import shutil as _shutil
+    atexit.register(_shutil.rmtree, c.x_tmp, True)      # also when the session ends by an exception
     path = os.path.join(c.x_tmp, 'Xauthority')
 
     def s16(b):
